@@ -190,7 +190,11 @@ CHECKS = {
               "representations (non-vacuous equivalence classes) and exports problems, representations and the exact one-step "
               "solution of each kind as TERMS written from the characteristic roots. All 18.6k (problem, representation) pairs "
               "(thorough: 3 equations) are run: d, v, a histories vs the terms evaluated at 50 digits, and the equation-of-motion "
-              "residual at every sample. The statement is tested on every enumerated case, not proved."),
+              "residual at every sample. The statement is tested on every enumerated case, not proved. Grown since: the 7 initial-condition "
+              "rules (zero, d0, v0, d0+v0, static, static+d0, static+v0) are exported by the spec (IcRule) and crossed with every problem; "
+              "layouts with the rf equation first and with rb/el/rf interleaved; extra kinds 'rbv' (damped rigid-body mode between the two "
+              "documented cut-offs, 200 steps) and 'soft' (a soft heavy equation at a large step, rb set given or not) with their "
+              "legality rules in the spec."),
         ref="4/C01",
         note=("Trusted: TLC, the generic term evaluator (mpmath, 50 digits). Tolerance 1e-9 of the history scale; 5e-8 within 1e-6 of "
               "critical damping; 2e-3 for rigid-body damping below the documented cut-off. SolveUnc's coupled path is not asked to "
@@ -207,7 +211,10 @@ CHECKS = {
               "(F/(k - W^2 m + iWb), v = iWd, a = -W^2 d; rb a = F/m, v = a/(iW), d = -a/W^2; rf static). Each configuration is "
               "instantiated with seeded systems and complex force spectra at {0 Hz where in the solver's domain, below, at, above "
               "resonance}: zero pattern exact, values vs the evaluated terms (1e-9), so both solvers and every representation are "
-              "tied to one definition. solvepsd = sum_i PSD_i |H_i|^2 from the terms, rms = sqrt(trapezoid)."),
+              "tied to one definition. solvepsd = sum_i PSD_i |H_i|^2 from the terms, rms = sqrt(trapezoid). Grown since (Stress tuples of "
+              "the spec): solver objects built with a time step (hgiven), real and complex roots mixed, frequency vectors in any order "
+              "(0 Hz not first), rb/el/rf interleaved and non-contiguous rb index arrays, non-symmetric (gyroscopic) damping compared with "
+              "full-matrix terms MatD/MatV/MatA, solvepsd with a force that excites nothing modally but feeds through drmf."),
         ref="4/C02",
         note=("Trusted: TLC, generic term evaluator (numpy complex). Rigid-body equations undamped (modal-space rb); resonance is "
               "sampled on damped modes only. One genuine defect repaired (complex uncoupled system with rb and given mass, fix: "
@@ -243,7 +250,10 @@ CHECKS = {
               "conversion history (c2d/d2c x zoh/zoha/foh/tustin x prewarp none/0/w, incl. calls on a model already in the target domain) "
               "of length 2 (thorough 3) with its reduction (inverse pairs cancel in either direction): final model = reduced history "
               "replayed; each method's discrete matrices vs terms; exactly sampled response under the method's hold; tustin transfer "
-              "function = bilinear transform at 5-6 points of the unit circle incl. the prewarp frequency."),
+              "function = bilinear transform at 5-6 points of the unit circle incl. the prewarp frequency. specs/SSObjects.tla: models as "
+              "objects on a heap - any earlier object may be converted again; TLC checks Immutable / DerivationExtendsSource / "
+              "CallsConsistent on every history of 3 (thorough 4) calls, and each history is replayed on real SSModel objects (row- and "
+              "column-major inputs): every object is re-read after every call and compared with a fresh replay of its derivation."),
         ref="4/C07",
         note=("Trusted: TLC, mpmath, the generic term evaluator. Tolerance = 10 x (measured change of the exact result under a 64-ulp "
               "dense relative perturbation of A + 40 ulp): loss of 1-2 digits beyond that is not detected; comparisons whose sensitivity "
@@ -358,7 +368,11 @@ CHECKS = {
               "option point x index case (quick: 1/8 sample): resp['hist'] vs oracle (1e-9), shapes, resp['t'], spectrum = the "
               "stated statistic of the returned history over the stated window (exact), getresp on/off, packaging 1-D/Nx1/NxH. "
               "Laws: abs = max(pos,neg), total = max(primary,residual), pvelo = w reldisp, pacce = w^2 reldisp, eqsine = srs/Q, "
-              "linearity, column permutation, packaging, resampling sr contract; vrs / Miles / srs_frf closed forms."),
+              "linearity, column permutation, packaging, resampling sr contract; vrs / Miles / srs_frf closed forms. Rolloff index model "
+              "(UpWindow, UpLaws checked by TLC on 600 cases): factor ceil(ppc fmax / sr), resampled length per method (lanczos kM, fft "
+              "k(M - M mod 2), linear kM - 1), appended cycle and window start of the RESAMPLED record at the new rate - replayed for every "
+              "option point (quick 1/48): resp['sr'], shapes, resp['t'], spectrum = statistic of the returned history, and for ic='zero' "
+              "the history equals the exact response to the record resampled by the public linroll / lanroll / fftroll."),
         ref="4/C03",
         note=("Trusted: TLC, generic evaluator. rolloff='none' for exactness (resampling accuracy is C19). ic='steady' at exactly 0 Hz "
               "is not compared for reldisp/pvelo/pacce (singular static offset). vrs to 1% (end-band quadrature detail)."),
@@ -411,7 +425,11 @@ def build():
                                "into the real code and traces recorded from the real code are validated against trace specs"},
         ],
         "checks": checks,
-        "notes": "All checks import pyYeti from $VERIF_REPO (default /repo) working tree; c_rain.c is compiled from the working tree per run.",
+        "notes": ("All checks import pyYeti from $VERIF_REPO (default /repo) working tree; c_rain.c is compiled from the working tree per run. "
+                  "Every check ends with the purity part (specs/Purity.tla, harness/purity.py): a recorded trace of representative public "
+                  "calls of the property's functions - the call, the repeated call, the call after unrelated calls and the same call in a "
+                  "forked fresh process - is validated by TLC against a memo-table machine (arguments untouched, same arguments -> same "
+                  "answer); a rejected line is a VIOLATION of the property the call belongs to. VERIF_NO_PURITY=1 skips it."),
         "not_applicable": na,
     }
     with open(os.path.join(VERIF, "MANIFEST.json"), "w") as f:
